@@ -53,6 +53,7 @@ type Cfg struct {
 	ErrText  string
 	HasErr   bool
 	Resolved string // if non-empty: the browse "next" label resolves to this text
+	Sep      string // if non-empty: the menu separator (Menu.WithSeparator / Config.MenuSeparator)
 }
 
 // Draw builds a symbolic configuration. Row lengths >= minRow.
@@ -138,6 +139,9 @@ func (c *Cfg) Page(v *vrt.Ctx) (*render.Page, bool) {
 		}
 	}
 	mn := render.NewMenu()
+	if c.Sep != "" {
+		mn = mn.WithSeparator(c.Sep)
+	}
 	cfg := render.BrowseConfig{}
 	if c.Browse >= 1 {
 		cfg.NextAvailable, cfg.NextSelector, cfg.NextTitle = true, c.NextSel, c.NextTtl
